@@ -29,7 +29,7 @@ TRUSTED = ["hand-written models C05/Model.v (gvariant::Serializer, FramingOffset
            "the throw-away Python GVariant marshaller in props/c05_gen.py is only a source of inputs, except for the deD/deK cases of C07 "
            "where it states that the bytes encode a value beyond / within the nesting limits"]
 ASSUMPTIONS = ["64-bit usize (offset widths 1, 2, 4, 8); containers below 2^32 bytes in the generated cases",
-               "the native stack bound of the signature parser is platform dependent: only depths <= 2000 (fine) and >= 100000 (overflow) are run",
+               "the native stack bound of the signature parser is platform dependent: only depths <= 2000 (fine) and 60000 (overflow) are run",
                "deserialize_bytes / serde_bytes, enum variants with payload (StructSerializer::enum_variant) and the empty tuple are outside the model",
                "dup(2) returns a descriptor different from every open one (fds: only counts and indices are compared)"]
 
@@ -216,9 +216,10 @@ def gen_hostile(rng, tier):
         yield V.case_de_v(False, 0, 0, b"\0\0" + b"m" * d + b"y")
         yield V.case_de_v(False, 0, 0, b"\0\0" + b"(" * d + b"y" + b")" * d)
         yield V.case_de_v(False, 0, 0, b"\0\0" + b"y" * d)
-    for d in (100000,):
-        yield V.case_de_v(False, 0, 0, b"\0\0" + b"(" * d + b"y" + b")" * d, cmd="xde")
+    for d in (60000,):
+        yield V.case_de_v(False, 0, 0, b"\0\0" + b"(" * d + b"y", cmd="xde")
         yield V.case_de_v(False, 0, 0, b"\0\0" + b"a" * d + b"y", cmd="xde")
+        yield V.case_de_v(False, 0, 0, b"\0\0" + b"m" * d + b"y", cmd="xde")
 
 
 def gen(rng, tier):
